@@ -35,33 +35,17 @@ pub fn vec_one(oc: &OligoComputer, seq: &[u8]) -> Vec<f64> {
     oc.vectorise_one(seq)
 }
 
-/// column of a canonical code = number of canonical codes below it (oracle,
-/// independent of the table)
-fn column_of(c: u64, k: usize) -> usize {
-    let total = pow4(k);
-    let mut n = 0usize;
-    let mut z = 0u64;
-    while z < total {
-        if z < c && z <= rc_code_oracle(z, k) {
-            n += 1;
-        }
-        z += 1;
-    }
-    n
-}
-
-/// oracle: (number of valid windows whose canonical k-mer has column p, total valid windows)
-fn oracle_counts<const K: usize>(s: &[u8], p: usize) -> (u32, u32) {
+/// oracle: (number of valid windows whose canonical k-mer has column p, total valid windows);
+/// `ocol` is the compiler-evaluated oracle table code -> column (verif_support::OCOL_K*).
+fn oracle_counts<const K: usize, const N: usize>(s: &[u8], p: usize, ocol: &[u16]) -> (u32, u32) {
     let mut cnt = 0u32;
     let mut total = 0u32;
     let mut start = 0usize;
-    while start + K <= s.len() {
-        let w = &s[start..start + K];
-        if all_clean(w) {
+    while start + K <= N {
+        if start + K <= s.len() && all_clean(&s[start..start + K]) {
+            let w = &s[start..start + K];
             let f = fwd_code(w);
-            let r = rev_code(w);
-            let c = if f < r { f } else { r };
-            if column_of(c, K) == p {
+            if ocol[f as usize] as usize == p {
                 cnt += 1;
             }
             total += 1;
@@ -73,7 +57,7 @@ fn oracle_counts<const K: usize>(s: &[u8], p: usize) -> (u32, u32) {
 
 /// Functional clause.  K concrete, N = max length, symbolic length, symbolic
 /// column p; NORM selects counts mode / normalised mode.
-pub fn c04_counts<const K: usize, const N: usize, const NORM: bool>(rank: &[usize], kcount: usize) {
+pub fn c04_counts<const K: usize, const N: usize, const NORM: bool>(rank: &[usize], kcount: usize, ocol: &[u16]) {
     let seq: [u8; N] = any_seq::<N>();
     let len = any_usize();
     assume(len <= N);
@@ -81,10 +65,10 @@ pub fn c04_counts<const K: usize, const N: usize, const NORM: bool>(rank: &[usiz
     let oc = mk(K, rank, kcount, NORM);
     let v = oc.vectorise_one(s);
     check!(v.len() == kcount, "C04: row does not have one value per canonical k-mer column");
-    check!(kcount == crate::oligo::verif_c04::expected_count(K), "C04: column count is not the number of canonical k-mers");
+    check!(kcount == expected_count(K), "C04: column count is not the number of canonical k-mers");
     let p = any_usize();
     assume(p < kcount);
-    let (cnt, total) = oracle_counts::<K>(s, p);
+    let (cnt, total) = oracle_counts::<K, N>(s, p, ocol);
     if p < v.len() {
         if NORM {
             let d = if total == 0 { 1.0 } else { total as f64 };
@@ -101,15 +85,6 @@ pub fn c04_counts<const K: usize, const N: usize, const NORM: bool>(rank: &[usiz
     cover!(true, "req: end of harness reached");
     core::mem::forget(v);
     core::mem::forget(oc);
-}
-
-pub fn expected_count(k: usize) -> usize {
-    let p = pow4(k) as usize;
-    if k % 2 == 0 {
-        (p + pow4(k / 2) as usize) / 2
-    } else {
-        p / 2
-    }
 }
 
 fn toggle_case(b: u8) -> u8 {
